@@ -17,8 +17,8 @@ def bits256 : Codec := bitsC 256
 
 /-! ### addresses, currencies, messages (what the C16 parsers read through) -/
 
-def anycast : Codec :=
-  recd [fld "depth" (uintRange 5 1 30), dep "rewrite_pfx" (fun e => bitsC (e.nat "depth"))]
+def anycast : Codec := typ "anycast" (
+  recd [fld "depth" (uintRange 5 1 30), dep "rewrite_pfx" (fun e => bitsC (e.nat "depth"))])
 
 def addrNoneAlt : Alt := (tag 2 0, "addr_none", nothing)
 def addrExternAlt : Alt :=
@@ -30,13 +30,14 @@ def addrVarAlt : Alt :=
                               dep "address" (fun e => bitsC (e.nat "addr_len"))])
 
 def msgAddressExtAlts : List Alt := [addrNoneAlt, addrExternAlt]
-def msgAddressExt : Codec := tagged msgAddressExtAlts
+def msgAddressExt : Codec := typ "msgAddressExt" (tagged msgAddressExtAlts)
 /-- generator: `addr_std` only (the library's `load_address` has no `addr_var`; addresses are C06/C15 matter) -/
 def msgAddressIntAlts : List Alt := [addrStdAlt, addrVarAlt]
-def msgAddressInt : Codec := withGen (tagged msgAddressIntAlts) (genAlts [addrStdAlt])
+def msgAddressInt : Codec := typ "msgAddressInt" (withPaths (withGen (tagged msgAddressIntAlts) (genAlts [addrStdAlt]))
+  (fun m => (tagged [addrStdAlt]).paths m))
 
-def extraCurrencyCollection : Codec := recd [fld "dict" (hashmapE 32 (varUInt 32))]
-def currencyCollection : Codec := recd [fld "grams" grams, fld "other" extraCurrencyCollection]
+def extraCurrencyCollection : Codec := typ "extraCurrencyCollection" (recd [fld "dict" (hashmapE 32 (varUInt 32))])
+def currencyCollection : Codec := typ "currencyCollection" (recd [fld "grams" grams, fld "other" extraCurrencyCollection])
 
 def commonMsgInfoAlts : List Alt :=
   [
@@ -46,67 +47,67 @@ def commonMsgInfoAlts : List Alt :=
     (tag 2 2, "ext_in_msg_info", recd [fld "src" msgAddressExt, fld "dest" msgAddressInt, fld "import_fee" grams]),
     (tag 2 3, "ext_out_msg_info", recd [fld "src" msgAddressInt, fld "dest" msgAddressExt,
       fld "created_lt" (uint 64), fld "created_at" (uint 32)])]
-def commonMsgInfo : Codec := tagged (commonMsgInfoAlts)
+def commonMsgInfo : Codec := typ "commonMsgInfo" (tagged (commonMsgInfoAlts))
 
-def tickTock : Codec := recd [fld "tick" boolC, fld "tock" boolC]
+def tickTock : Codec := typ "tickTock" (recd [fld "tick" boolC, fld "tock" boolC])
 
-def stateInit : Codec :=
+def stateInit : Codec := typ "stateInit" (
   recd [fld "split_depth" (maybe (uint 5)), fld "special" (maybe tickTock),
-        fld "code" (maybe cellRef), fld "data" (maybe cellRef), fld "library" (maybe cellRef)]
+        fld "code" (maybe cellRef), fld "data" (maybe cellRef), fld "library" (maybe cellRef)])
 
 /-- `Message Any` : closes its cell (body `Either X ^X` with `X = Any`) -/
-def message : Codec :=
+def message : Codec := typ "message" (
   recd [fld "info" commonMsgInfo, fld "init" (maybe (either stateInit (ref stateInit))),
-        fld "body" (either rest (ref rest))]
+        fld "body" (either rest (ref rest))])
 
 /-! ### accounts -/
 
 def accountStatusAlts : List Alt :=
   [(tag 2 0, "acc_state_uninit", nothing), (tag 2 1, "acc_state_frozen", nothing),
           (tag 2 2, "acc_state_active", nothing), (tag 2 3, "acc_state_nonexist", nothing)]
-def accountStatus : Codec := tagged (accountStatusAlts)
+def accountStatus : Codec := typ "accountStatus" (tagged (accountStatusAlts))
 
-def hashUpdate : Codec := ctag (tag 8 0x72) (recd [fld "old_hash" bits256, fld "new_hash" bits256])
+def hashUpdate : Codec := typ "hashUpdate" (ctag (tag 8 0x72) (recd [fld "old_hash" bits256, fld "new_hash" bits256]))
 
-def storageUsed : Codec := recd [fld "cells" (varUInt 7), fld "bits" (varUInt 7), fld "public_cells" (varUInt 7)]
-def storageUsedShort : Codec := recd [fld "cells" (varUInt 7), fld "bits" (varUInt 7)]
-def storageInfo : Codec :=
-  recd [fld "used" storageUsed, fld "last_paid" (uint 32), fld "due_payment" (maybe grams)]
+def storageUsed : Codec := typ "storageUsed" (recd [fld "cells" (varUInt 7), fld "bits" (varUInt 7), fld "public_cells" (varUInt 7)])
+def storageUsedShort : Codec := typ "storageUsedShort" (recd [fld "cells" (varUInt 7), fld "bits" (varUInt 7)])
+def storageInfo : Codec := typ "storageInfo" (
+  recd [fld "used" storageUsed, fld "last_paid" (uint 32), fld "due_payment" (maybe grams)])
 
 def accountStateAlts : List Alt :=
   [(tag 2 0, "account_uninit", nothing), (tag 1 1, "account_active", recd [fld "_" stateInit]),
           (tag 2 1, "account_frozen", recd [fld "state_hash" bits256])]
-def accountState : Codec := tagged (accountStateAlts)
+def accountState : Codec := typ "accountState" (tagged (accountStateAlts))
 
-def accountStorage : Codec :=
-  recd [fld "last_trans_lt" (uint 64), fld "balance" currencyCollection, fld "state" accountState]
+def accountStorage : Codec := typ "accountStorage" (
+  recd [fld "last_trans_lt" (uint 64), fld "balance" currencyCollection, fld "state" accountState])
 
 def accountAlts : List Alt :=
   [(tag 1 0, "account_none", nothing),
           (tag 1 1, "account", recd [fld "addr" msgAddressInt, fld "storage_stat" storageInfo, fld "storage" accountStorage])]
-def account : Codec := tagged (accountAlts)
+def account : Codec := typ "account" (tagged (accountAlts))
 
-def shardAccount : Codec :=
-  recd [fld "account" (ref account), fld "last_trans_hash" bits256, fld "last_trans_lt" (uint 64)]
+def shardAccount : Codec := typ "shardAccount" (
+  recd [fld "account" (ref account), fld "last_trans_hash" bits256, fld "last_trans_lt" (uint 64)])
 
-def depthBalanceInfo : Codec := recd [fld "split_depth" (uintLe 30), fld "balance" currencyCollection]
-def shardAccounts : Codec := hashmapAugE 256 shardAccount depthBalanceInfo
+def depthBalanceInfo : Codec := typ "depthBalanceInfo" (recd [fld "split_depth" (uintLe 30), fld "balance" currencyCollection])
+def shardAccounts : Codec := typ "shardAccounts" (hashmapAugE 256 shardAccount depthBalanceInfo)
 
 /-! ### transaction phases -/
 
 def accStatusChangeAlts : List Alt :=
   [(tag 1 0, "acst_unchanged", nothing), (tag 2 2, "acst_frozen", nothing), (tag 2 3, "acst_deleted", nothing)]
-def accStatusChange : Codec := tagged (accStatusChangeAlts)
+def accStatusChange : Codec := typ "accStatusChange" (tagged (accStatusChangeAlts))
 
 def computeSkipReasonAlts : List Alt :=
   [(tag 2 0, "cskip_no_state", nothing), (tag 2 1, "cskip_bad_state", nothing),
           (tag 2 2, "cskip_no_gas", nothing), (tag 3 6, "cskip_suspended", nothing)]
-def computeSkipReason : Codec := tagged (computeSkipReasonAlts)
+def computeSkipReason : Codec := typ "computeSkipReason" (tagged (computeSkipReasonAlts))
 
-def trStoragePhase : Codec :=
-  recd [fld "storage_fees_collected" grams, fld "storage_fees_due" (maybe grams), fld "status_change" accStatusChange]
+def trStoragePhase : Codec := typ "trStoragePhase" (
+  recd [fld "storage_fees_collected" grams, fld "storage_fees_due" (maybe grams), fld "status_change" accStatusChange])
 
-def trCreditPhase : Codec := recd [fld "due_fees_collected" (maybe grams), fld "credit" currencyCollection]
+def trCreditPhase : Codec := typ "trCreditPhase" (recd [fld "due_fees_collected" (maybe grams), fld "credit" currencyCollection])
 
 def trComputePhaseAlts : List Alt :=
   [
@@ -117,23 +118,23 @@ def trComputePhaseAlts : List Alt :=
         fld "gas_credit" (maybe (varUInt 3)), fld "mode" (sint 8), fld "exit_code" (sint 32),
         fld "exit_arg" (maybe (sint 32)), fld "vm_steps" (uint 32),
         fld "vm_init_state_hash" bits256, fld "vm_final_state_hash" bits256]))])]
-def trComputePhase : Codec := tagged (trComputePhaseAlts)
+def trComputePhase : Codec := typ "trComputePhase" (tagged (trComputePhaseAlts))
 
-def trActionPhase : Codec :=
+def trActionPhase : Codec := typ "trActionPhase" (
   recd [fld "success" boolC, fld "valid" boolC, fld "no_funds" boolC, fld "status_change" accStatusChange,
         fld "total_fwd_fees" (maybe grams), fld "total_action_fees" (maybe grams),
         fld "result_code" (sint 32), fld "result_arg" (maybe (sint 32)), fld "tot_actions" (uint 16),
         fld "spec_actions" (uint 16), fld "skipped_actions" (uint 16), fld "msgs_created" (uint 16),
-        fld "action_list_hash" bits256, fld "tot_msg_size" storageUsedShort]
+        fld "action_list_hash" bits256, fld "tot_msg_size" storageUsedShort])
 
 def trBouncePhaseAlts : List Alt :=
   [(tag 2 0, "tr_phase_bounce_negfunds", nothing),
           (tag 2 1, "tr_phase_bounce_nofunds", recd [fld "msg_size" storageUsedShort, fld "req_fwd_fees" grams]),
           (tag 1 1, "tr_phase_bounce_ok", recd [fld "msg_size" storageUsedShort, fld "msg_fees" grams, fld "fwd_fees" grams])]
-def trBouncePhase : Codec := tagged (trBouncePhaseAlts)
+def trBouncePhase : Codec := typ "trBouncePhase" (tagged (trBouncePhaseAlts))
 
-def splitMergeInfo : Codec :=
-  recd [fld "cur_shard_pfx_len" (uint 6), fld "acc_split_depth" (uint 6), fld "this_addr" bits256, fld "sibling_addr" bits256]
+def splitMergeInfo : Codec := typ "splitMergeInfo" (
+  recd [fld "cur_shard_pfx_len" (uint 6), fld "acc_split_depth" (uint 6), fld "this_addr" bits256, fld "sibling_addr" bits256])
 
 /-! ### transactions (Transaction ↔ TransactionDescr recursion through `prepare_transaction:^Transaction`
     is bounded by a nesting budget; the laws hold for every budget) -/
@@ -155,13 +156,13 @@ def transactionDescrFAlts (tx : Codec) : List Alt :=
     (tag 4 7, "trans_merge_install", recd [fld "split_info" splitMergeInfo, fld "prepare_transaction" (ref tx),
       fld "storage_ph" (maybe trStoragePhase), fld "credit_ph" (maybe trCreditPhase), fld "compute_ph" trComputePhase,
       fld "action" (maybe (ref trActionPhase)), fld "aborted" boolC, fld "destroyed" boolC])]
-def transactionDescrF (tx : Codec) : Codec := tagged (transactionDescrFAlts tx)
+def transactionDescrF (tx : Codec) : Codec := typ "transactionDescrF" (tagged (transactionDescrFAlts tx))
 
 /-- `Transaction` with at most `budget` levels of transaction nesting -/
 def transactionF : Nat → Codec
   | 0 => failC
   | budget+1 =>
-    ctag (tag 4 7) (recd [fld "account_addr" bits256, fld "lt" (uint 64), fld "prev_trans_hash" bits256,
+    typ "transaction" <| ctag (tag 4 7) (recd [fld "account_addr" bits256, fld "lt" (uint 64), fld "prev_trans_hash" bits256,
       fld "prev_trans_lt" (uint 64), fld "now" (uint 32), fld "outmsg_cnt" (uint 15),
       fld "orig_status" accountStatus, fld "end_status" accountStatus,
       fld "_ref1" (ref (recd [fld "in_msg" (maybe (ref message)), fld "out_msgs" (hashmapE 15 (ref message))])),
@@ -171,12 +172,12 @@ def transactionF : Nat → Codec
 def transaction : Codec := transactionF 3
 def transactionDescr : Codec := transactionDescrF (transactionF 2)
 
-def accountBlock : Codec :=
+def accountBlock : Codec := typ "accountBlock" (
   ctag (tag 4 5) (recd [fld "account_addr" bits256,
     fld "transactions" (hashmapAug 64 (ref transaction) currencyCollection),
-    fld "state_update" (ref hashUpdate)])
+    fld "state_update" (ref hashUpdate)]))
 
-def shardAccountBlocks : Codec := hashmapAugE 256 accountBlock currencyCollection
+def shardAccountBlocks : Codec := typ "shardAccountBlocks" (hashmapAugE 256 accountBlock currencyCollection)
 
 /-! ### message descriptors -/
 
@@ -184,11 +185,11 @@ def intermediateAddressAlts : List Alt :=
   [(tag 1 0, "interm_addr_regular", recd [fld "use_dest_bits" (uintLe 96)]),
           (tag 2 2, "interm_addr_simple", recd [fld "workchain_id" (sint 8), fld "addr_pfx" (uint 64)]),
           (tag 2 3, "interm_addr_ext", recd [fld "workchain_id" (sint 32), fld "addr_pfx" (uint 64)])]
-def intermediateAddress : Codec := tagged (intermediateAddressAlts)
+def intermediateAddress : Codec := typ "intermediateAddress" (tagged (intermediateAddressAlts))
 
 /-- (upstream) -/
-def msgMetadata : Codec :=
-  ctag (tag 4 0) (recd [fld "depth" (uint 32), fld "initiator_addr" msgAddressInt, fld "initiator_lt" (uint 64)])
+def msgMetadata : Codec := typ "msgMetadata" (
+  ctag (tag 4 0) (recd [fld "depth" (uint 32), fld "initiator_addr" msgAddressInt, fld "initiator_lt" (uint 64)]))
 
 def msgEnvelopeAlts : List Alt :=
   [
@@ -197,7 +198,7 @@ def msgEnvelopeAlts : List Alt :=
     (tag 4 5, "msg_envelope_v2", recd [fld "cur_addr" intermediateAddress, fld "next_addr" intermediateAddress,
       fld "fwd_fee_remaining" grams, fld "msg" (ref message), fld "emitted_lt" (maybe (uint 64)),
       fld "metadata" (maybe msgMetadata)])]
-def msgEnvelope : Codec := tagged (msgEnvelopeAlts)
+def msgEnvelope : Codec := typ "msgEnvelope" (tagged (msgEnvelopeAlts))
 
 def inMsgAlts : List Alt :=
   [
@@ -213,9 +214,9 @@ def inMsgAlts : List Alt :=
     (tag 5 4, "msg_import_deferred_fin", recd [fld "in_msg" (ref msgEnvelope), fld "transaction" (ref transaction),
       fld "fwd_fee" grams]),                                                                  -- (upstream)
     (tag 5 5, "msg_import_deferred_tr", recd [fld "in_msg" (ref msgEnvelope), fld "out_msg" (ref msgEnvelope)])]
-def inMsg : Codec := tagged (inMsgAlts)  -- (upstream)
+def inMsg : Codec := typ "inMsg" (tagged (inMsgAlts))  -- (upstream)
 
-def importFees : Codec := recd [fld "fees_collected" grams, fld "value_imported" currencyCollection]
+def importFees : Codec := typ "importFees" (recd [fld "fees_collected" grams, fld "value_imported" currencyCollection])
 
 def outMsgAlts : List Alt :=
   [
@@ -230,29 +231,29 @@ def outMsgAlts : List Alt :=
     (tag 3 4, "msg_export_deq_imm", recd [fld "out_msg" (ref msgEnvelope), fld "reimport" (ref inMsg)]),
     (tag 5 20, "msg_export_new_defer", recd [fld "out_msg" (ref msgEnvelope), fld "transaction" (ref transaction)]),  -- (upstream)
     (tag 5 21, "msg_export_deferred_tr", recd [fld "out_msg" (ref msgEnvelope), fld "imported" (ref inMsg)])]
-def outMsg : Codec := tagged (outMsgAlts)          -- (upstream)
+def outMsg : Codec := typ "outMsg" (tagged (outMsgAlts))  -- (upstream)
 
-def inMsgDescr : Codec := hashmapAugE 256 inMsg importFees
-def outMsgDescr : Codec := hashmapAugE 256 outMsg currencyCollection
+def inMsgDescr : Codec := typ "inMsgDescr" (hashmapAugE 256 inMsg importFees)
+def outMsgDescr : Codec := typ "outMsgDescr" (hashmapAugE 256 outMsg currencyCollection)
 
 /-! ### block header, value flow, shards -/
 
-def shardIdent : Codec :=
-  ctag (tag 2 0) (recd [fld "shard_pfx_bits" (uintLe 60), fld "workchain_id" (sint 32), fld "shard_prefix" (uint 64)])
+def shardIdent : Codec := typ "shardIdent" (
+  ctag (tag 2 0) (recd [fld "shard_pfx_bits" (uintLe 60), fld "workchain_id" (sint 32), fld "shard_prefix" (uint 64)]))
 
-def globalVersion : Codec := ctag (tag 8 0xc4) (recd [fld "version" (uint 32), fld "capabilities" (uint 64)])
+def globalVersion : Codec := typ "globalVersion" (ctag (tag 8 0xc4) (recd [fld "version" (uint 32), fld "capabilities" (uint 64)]))
 
-def extBlkRef : Codec :=
-  recd [fld "end_lt" (uint 64), fld "seq_no" (uint 32), fld "root_hash" bits256, fld "file_hash" bits256]
+def extBlkRef : Codec := typ "extBlkRef" (
+  recd [fld "end_lt" (uint 64), fld "seq_no" (uint 32), fld "root_hash" bits256, fld "file_hash" bits256])
 
-def blkMasterInfo : Codec := recd [fld "master" extBlkRef]
+def blkMasterInfo : Codec := typ "blkMasterInfo" (recd [fld "master" extBlkRef])
 
 /-- `BlkPrevInfo m` -/
-def blkPrevInfo (m : Nat) : Codec :=
+def blkPrevInfo (m : Nat) : Codec := typ "blkPrevInfo" (
   if m = 0 then named "prev_blk_info" (recd [fld "prev" extBlkRef])
-  else named "prev_blks_info" (recd [fld "prev1" (ref extBlkRef), fld "prev2" (ref extBlkRef)])
+  else named "prev_blks_info" (recd [fld "prev1" (ref extBlkRef), fld "prev2" (ref extBlkRef)]))
 
-def blockInfo : Codec :=
+def blockInfo : Codec := typ "blockInfo" (
   ctag (tag 32 0x9bc7a987) (recd [
     fld "version" (uint 32), fld "not_master" (uint 1), fld "after_merge" (uint 1), fld "before_split" (uint 1),
     fld "after_split" (uint 1), fld "want_split" boolC, fld "want_merge" boolC, fld "key_block" boolC,
@@ -265,14 +266,14 @@ def blockInfo : Codec :=
     dep "gen_software" (fun e => if e.nat "flags" % 2 = 1 then globalVersion else nothing),
     dep "master_ref" (fun e => if e.nat "not_master" = 1 then ref blkMasterInfo else nothing),
     dep "prev_ref" (fun e => ref (blkPrevInfo (e.nat "after_merge"))),
-    dep "prev_vert_ref" (fun e => if e.nat "vert_seqno_incr" = 1 then ref (blkPrevInfo 0) else nothing)])
+    dep "prev_vert_ref" (fun e => if e.nat "vert_seqno_incr" = 1 then ref (blkPrevInfo 0) else nothing)]))
 
-def valueFlowIn : Codec :=
+def valueFlowIn : Codec := typ "valueFlowIn" (
   recd [fld "from_prev_blk" currencyCollection, fld "to_next_blk" currencyCollection,
-        fld "imported" currencyCollection, fld "exported" currencyCollection]
-def valueFlowOut : Codec :=
+        fld "imported" currencyCollection, fld "exported" currencyCollection])
+def valueFlowOut : Codec := typ "valueFlowOut" (
   recd [fld "fees_imported" currencyCollection, fld "recovered" currencyCollection,
-        fld "created" currencyCollection, fld "minted" currencyCollection]
+        fld "created" currencyCollection, fld "minted" currencyCollection])
 
 def valueFlowAlts : List Alt :=
   [
@@ -280,13 +281,13 @@ def valueFlowAlts : List Alt :=
       fld "_ref2" (ref valueFlowOut)]),
     (tag 32 0x3ebf98b7, "value_flow_v2", recd [fld "_ref1" (ref valueFlowIn), fld "fees_collected" currencyCollection,
       fld "burned" currencyCollection, fld "_ref2" (ref valueFlowOut)])]
-def valueFlow : Codec := tagged (valueFlowAlts)
+def valueFlow : Codec := typ "valueFlow" (tagged (valueFlowAlts))
 
 def futureSplitMergeAlts : List Alt :=
   [(tag 1 0, "fsm_none", nothing),
           (tag 2 2, "fsm_split", recd [fld "split_utime" (uint 32), fld "interval" (uint 32)]),
           (tag 2 3, "fsm_merge", recd [fld "merge_utime" (uint 32), fld "interval" (uint 32)])]
-def futureSplitMerge : Codec := tagged (futureSplitMergeAlts)
+def futureSplitMerge : Codec := typ "futureSplitMerge" (tagged (futureSplitMergeAlts))
 
 def shardDescrHead : List Field :=
   [fld "seq_no" (uint 32), fld "reg_mc_seqno" (uint 32), fld "start_lt" (uint 64), fld "end_lt" (uint 64),
@@ -301,19 +302,19 @@ def shardDescrAlts : List Alt :=
       [fld "fees_collected" currencyCollection, fld "funds_created" currencyCollection])),
     (tag 4 0xa, "shard_descr_new", recd (shardDescrHead ++
       [fld "_ref1" (ref (recd [fld "fees_collected" currencyCollection, fld "funds_created" currencyCollection]))]))]
-def shardDescr : Codec := tagged (shardDescrAlts)
+def shardDescr : Codec := typ "shardDescr" (tagged (shardDescrAlts))
 
 /-- `_ (HashmapE 32 ^(BinTree ShardDescr)) = ShardHashes` -/
-def shardHashes : Codec := hashmapE 32 (ref (binTree shardDescr))
+def shardHashes : Codec := typ "shardHashes" (hashmapE 32 (ref (binTree shardDescr)))
 
 /-! ### validators, catchain, consensus (config parameters 28, 29, 32-37) -/
 
-def sigPubKey : Codec := ctag (tag 32 0x8e81278a) (recd [fld "pubkey" bits256])
+def sigPubKey : Codec := typ "sigPubKey" (ctag (tag 32 0x8e81278a) (recd [fld "pubkey" bits256]))
 
 def validatorDescrAlts : List Alt :=
   [(tag 8 0x53, "validator", recd [fld "public_key" sigPubKey, fld "weight" (uint 64)]),
           (tag 8 0x73, "validator_addr", recd [fld "public_key" sigPubKey, fld "weight" (uint 64), fld "adnl_addr" bits256])]
-def validatorDescr : Codec := tagged (validatorDescrAlts)
+def validatorDescr : Codec := typ "validatorDescr" (tagged (validatorDescrAlts))
 
 def validatorSetAlts : List Alt :=
   [
@@ -325,7 +326,7 @@ def validatorSetAlts : List Alt :=
       fld "total" (withGen (uint 16) (uintRange 16 1 65535).gen),
       dep "main" (fun e => uintRange 16 1 (e.nat "total")),
       fld "total_weight" (uint 64), fld "list" (hashmapE 16 validatorDescr)])]
-def validatorSet : Codec := tagged (validatorSetAlts)
+def validatorSet : Codec := typ "validatorSet" (tagged (validatorSetAlts))
 
 def catchainConfigAlts : List Alt :=
   [
@@ -334,7 +335,7 @@ def catchainConfigAlts : List Alt :=
     (tag 8 0xc2, "catchain_config_new", recd [fld "flags" (uintRange 7 0 0), fld "shuffle_mc_validators" boolC,
       fld "mc_catchain_lifetime" (uint 32), fld "shard_catchain_lifetime" (uint 32),
       fld "shard_validators_lifetime" (uint 32), fld "shard_validators_num" (uint 32)])]
-def catchainConfig : Codec := tagged (catchainConfigAlts)
+def catchainConfig : Codec := typ "catchainConfig" (tagged (catchainConfigAlts))
 
 def consensusTail : List Field :=
   [fld "next_candidate_delay_ms" (uint 32), fld "consensus_timeout_ms" (uint 32), fld "fast_attempts" (uint 32),
@@ -351,84 +352,84 @@ def consensusConfigAlts : List Alt :=
     (tag 8 0xd8, "consensus_config_v3", recd (consensusNewHead ++ consensusTail ++ [fld "proto_version" (uint 16)])),
     (tag 8 0xd9, "consensus_config_v4", recd (consensusNewHead ++ consensusTail ++
       [fld "proto_version" (uint 16), fld "catchain_max_blocks_coeff" (uint 32)]))]
-def consensusConfig : Codec := tagged (consensusConfigAlts)
+def consensusConfig : Codec := typ "consensusConfig" (tagged (consensusConfigAlts))
 
 /-! ### masterchain extras -/
 
-def validatorInfo : Codec :=
-  recd [fld "validator_list_hash_short" (uint 32), fld "catchain_seqno" (uint 32), fld "nx_cc_updated" boolC]
+def validatorInfo : Codec := typ "validatorInfo" (
+  recd [fld "validator_list_hash_short" (uint 32), fld "catchain_seqno" (uint 32), fld "nx_cc_updated" boolC])
 
-def keyExtBlkRef : Codec := recd [fld "key" boolC, fld "blk_ref" extBlkRef]
-def keyMaxLt : Codec := recd [fld "key" boolC, fld "max_end_lt" (uint 64)]
-def oldMcBlocksInfo : Codec := hashmapAugE 32 keyExtBlkRef keyMaxLt
+def keyExtBlkRef : Codec := typ "keyExtBlkRef" (recd [fld "key" boolC, fld "blk_ref" extBlkRef])
+def keyMaxLt : Codec := typ "keyMaxLt" (recd [fld "key" boolC, fld "max_end_lt" (uint 64)])
+def oldMcBlocksInfo : Codec := typ "oldMcBlocksInfo" (hashmapAugE 32 keyExtBlkRef keyMaxLt)
 
-def counters : Codec :=
-  recd [fld "last_updated" (uint 32), fld "total" (uint 64), fld "cnt2048" (uint 64), fld "cnt65536" (uint 64)]
-def creatorStats : Codec := ctag (tag 4 4) (recd [fld "mc_blocks" counters, fld "shard_blocks" counters])
+def counters : Codec := typ "counters" (
+  recd [fld "last_updated" (uint 32), fld "total" (uint 64), fld "cnt2048" (uint 64), fld "cnt65536" (uint 64)])
+def creatorStats : Codec := typ "creatorStats" (ctag (tag 4 4) (recd [fld "mc_blocks" counters, fld "shard_blocks" counters]))
 
 def blockCreateStatsAlts : List Alt :=
   [(tag 8 0x17, "block_create_stats", recd [fld "counters" (hashmapE 256 creatorStats)]),
           (tag 8 0x34, "block_create_stats_ext", recd [fld "counters" (hashmapAugE 256 creatorStats (uint 32))])]
-def blockCreateStats : Codec := tagged (blockCreateStatsAlts)
+def blockCreateStats : Codec := typ "blockCreateStats" (tagged (blockCreateStatsAlts))
 
 /-- `_ config_addr:bits256 config:^(Hashmap 32 ^Cell) = ConfigParams` -/
-def configParams : Codec := recd [fld "config_addr" bits256, fld "config" (ref (hashmap 32 cellRef))]
+def configParams : Codec := typ "configParams" (recd [fld "config_addr" bits256, fld "config" (ref (hashmap 32 cellRef))])
 
-def mcStateExtra : Codec :=
+def mcStateExtra : Codec := typ "mcStateExtra" (
   ctag (tag 16 0xcc26) (recd [fld "shard_hashes" shardHashes, fld "config" configParams,
     fld "_ref1" (ref (recd [fld "flags" (uintRange 16 0 1), fld "validator_info" validatorInfo,
       fld "prev_blocks" oldMcBlocksInfo, fld "after_key_block" boolC, fld "last_key_block" (maybe extBlkRef),
       dep "block_create_stats" (fun e => if e.nat "flags" % 2 = 1 then blockCreateStats else nothing)])),
-    fld "global_balance" currencyCollection])
+    fld "global_balance" currencyCollection]))
 
-def shardFeeCreated : Codec := recd [fld "fees" currencyCollection, fld "create" currencyCollection]
+def shardFeeCreated : Codec := typ "shardFeeCreated" (recd [fld "fees" currencyCollection, fld "create" currencyCollection])
 /-- `_ (HashmapAugE 96 ShardFeeCreated ShardFeeCreated) = ShardFees` -/
-def shardFees : Codec := hashmapAugE 96 shardFeeCreated shardFeeCreated
+def shardFees : Codec := typ "shardFees" (hashmapAugE 96 shardFeeCreated shardFeeCreated)
 
 /-- `sig_pair$_ node_id_short:bits256 sign:CryptoSignature` with `ed25519_signature#5 R:bits256 s:bits256`
     (the `chained_signature#f` form is not transcribed) -/
-def cryptoSignaturePair : Codec :=
-  recd [fld "node_id_short" bits256, fld "sign" (ctag (tag 4 5) (recd [fld "R" bits256, fld "s" bits256]))]
+def cryptoSignaturePair : Codec := typ "cryptoSignaturePair" (
+  recd [fld "node_id_short" bits256, fld "sign" (ctag (tag 4 5) (recd [fld "R" bits256, fld "s" bits256]))])
 
 /-- `masterchain_block_extra#cca5`; the two `^InMsg` are kept at cell level (the parser keeps them as cells) -/
-def mcBlockExtra : Codec :=
+def mcBlockExtra : Codec := typ "mcBlockExtra" (
   ctag (tag 16 0xcca5) (recd [fld "key_block" (uint 1), fld "shard_hashes" shardHashes,
     fld "shard_fees" shardFees,
     fld "_ref1" (ref (recd [fld "prev_blk_signatures" (hashmapE 16 cryptoSignaturePair), fld "recover_create_msg" (maybe cellRef),
       fld "mint_msg" (maybe cellRef)])),
-    dep "config" (fun e => if e.nat "key_block" = 1 then configParams else nothing)])
+    dep "config" (fun e => if e.nat "key_block" = 1 then configParams else nothing)]))
 
-def blockExtra : Codec :=
+def blockExtra : Codec := typ "blockExtra" (
   ctag (tag 32 0x4a33f6fd) (recd [fld "in_msg_descr" (ref inMsgDescr), fld "out_msg_descr" (ref outMsgDescr),
     fld "account_blocks" (ref shardAccountBlocks), fld "rand_seed" bits256, fld "created_by" bits256,
-    fld "custom" (maybe (ref mcBlockExtra))])
+    fld "custom" (maybe (ref mcBlockExtra))]))
 
 /-- `block#11ef55aa`; the Merkle update of the state is an opaque (exotic) cell here -/
-def block : Codec :=
+def block : Codec := typ "block" (
   ctag (tag 32 0x11ef55aa) (recd [fld "global_id" (sint 32), fld "info" (ref blockInfo), fld "value_flow" (ref valueFlow),
-    fld "state_update" cellRef, fld "extra" (ref blockExtra)])
+    fld "state_update" cellRef, fld "extra" (ref blockExtra)]))
 
 /-! ### shard state -/
 
 /-- `shared_lib_descr$00 lib:^Cell publishers:(Hashmap 256 True)` -/
-def libDescr : Codec := ctag (tag 2 0) (recd [fld "lib" cellRef, fld "publishers" (hashmap 256 nothing)])
+def libDescr : Codec := typ "libDescr" (ctag (tag 2 0) (recd [fld "lib" cellRef, fld "publishers" (hashmap 256 nothing)]))
 
 /-- the fields of `shard_state#9023afe2` (OutMsgQueueInfo is kept as an opaque cell, as the parser does) -/
-def shardStateUnsplitBody : Codec :=
+def shardStateUnsplitBody : Codec := typ "shardStateUnsplitBody" (
   recd [fld "global_id" (sint 32), fld "shard_id" shardIdent, fld "seq_no" (uint 32), fld "vert_seq_no" (uint 32),
     fld "gen_utime" (uint 32), fld "gen_lt" (uint 64), fld "min_ref_mc_seqno" (uint 32), fld "out_msg_queue_info" cellRef,
     fld "before_split" (uint 1), fld "accounts" (ref shardAccounts),
     fld "_ref1" (ref (recd [fld "overload_history" (uint 64), fld "underload_history" (uint 64),
       fld "total_balance" currencyCollection, fld "total_validator_fees" currencyCollection,
       fld "libraries" (hashmapE 256 libDescr), fld "master_ref" (maybe blkMasterInfo)])),
-    fld "custom" (maybe (ref mcStateExtra))]
+    fld "custom" (maybe (ref mcStateExtra))])
 
-def shardStateUnsplit : Codec := ctag (tag 32 0x9023afe2) shardStateUnsplitBody
+def shardStateUnsplit : Codec := typ "shardStateUnsplit" (ctag (tag 32 0x9023afe2) shardStateUnsplitBody)
 
 def shardStateAlts : List Alt :=
   [(tag 32 0x9023afe2, "_", shardStateUnsplitBody),
    (tag 32 0x5f327da5, "split_state", recd [fld "left" (ref shardStateUnsplit), fld "right" (ref shardStateUnsplit)])]
-def shardState : Codec := tagged shardStateAlts
+def shardState : Codec := typ "shardState" (tagged shardStateAlts)
 
 /-- the constructor tags of every `tagged` type above (and of the generic Hashmap / BinTree types) -/
 def allTagLists : List (String × List Bits) := [
